@@ -49,6 +49,8 @@ def deviations():
     devs += [dict(threads=4, tfactor=0.5), dict(threads=3, tfactor=1.0)]
     # verbosity is an option like any other: the iteration must not depend on what is printed
     devs += [dict(verbose=1), dict(verbose=2)]
+    # a non-uniform grid (radii and angles) loaded from files, as a user with an own mesh supplies it
+    devs += [dict(gridfile=6)]
     return devs
 
 
@@ -83,6 +85,9 @@ def enumerate_cases(tier):
                 c = base(**core)
                 c.update(d)
                 cases.append(("dev1", c))
+                c = dict(c)
+                c.update(gridfile=6)   # the uncached paths on a non-uniform grid
+                cases.append(("dev2", c))
         if tier == "thorough" or ci in (1, 3):
             for d1, d2 in itertools.combinations(devs, 2):
                 if set(d1) & set(d2):
@@ -92,6 +97,16 @@ def enumerate_cases(tier):
                 c.update(d2)
                 cases.append(("dev2", c))
     if tier == "thorough":
+        # deviation bound 3 from every core
+        for ci in range(len(cores)):
+            for d1, d2, d3 in itertools.combinations(devs, 3):
+                if (set(d1) & set(d2)) or (set(d1) & set(d3)) or (set(d2) & set(d3)):
+                    continue
+                c = base(**cores[ci])
+                c.update(d1)
+                c.update(d2)
+                c.update(d3)
+                cases.append(("dev3", c))
         for geom, prob, (alpha, beta), dirbc, strat, extr, cycle in itertools.product(
                 (0, 1, 2), (0, 1, 2), PROFILES, (0, 1), (0, 1), (0, 1, 3), (0, 1, 2)):
             cases.append(("core33", base(geom, prob, alpha, beta, dirbc, strat, extr, cycle, nr_exp=5, ntheta_exp=6)))
@@ -150,6 +165,10 @@ def judge(kind, cfg, r):
         if cfg["reltol"] >= 0 and indep0 and indep / indep0 <= SLACK * cfg["reltol"]:
             ok = True
         if cfg["abstol"] < 0 and cfg["reltol"] < 0:
+            ok = True
+        # two evaluations of f - A u (the solver's and the independent one, which uses the other strategy's operator) differ by
+        # rounding of the order of ROUNDING_FLOOR / 10: a residual that small cannot be compared with a tolerance to within 5 %
+        if indep is not None and indep <= ROUNDING_FLOOR:
             ok = True
         if not ok:
             out.append(("false-stop:e%d:n%d" % (cfg["extr"], cfg["norm"]),
@@ -223,7 +242,7 @@ def main(tier):
                 "count and reduction; extrapolation mode 2 only for the 'a reported stop is true' half.  distinct = distinct "
                 "(iterations, solution hash) outcomes",
         "samples": [short(cfg) for _, cfg in cases[:2]] + [short(cfg) for _, cfg in cases[-2:]],
-        "bounds": "deviation bound %s; grids 17x32%s" % ("2" if tier == "thorough" else "1 for all cores, 2 for two of them", ", 33x64" if tier == "thorough" else " (33x64 and anisotropic as deviations)"),
+        "bounds": "deviation bound %s; grids 17x32%s" % ("3 for all six cores" if tier == "thorough" else "1 for all cores, 2 for two of them", ", 33x64" if tier == "thorough" else " (33x64 and anisotropic as deviations)"),
         "exhaustive": True,
     }
     cov.update(hist_cov)
